@@ -1,5 +1,5 @@
 SPECIFICATION Spec
-CONSTANTS Mode = "reverse"  Variant = "ok"  Family = "sweep"  List = { }  Steps = 3
+CONSTANTS Mode = "reverse"  Variant = "ok"  Family = "sweep"  List = { }  Steps = 3  PairMod = 1
           Extra = { 1002 }
 INVARIANT TypeOK
 INVARIANT WallsHold
